@@ -95,12 +95,93 @@ DESC = {
               "read at pos == size (incl. zero-byte objects)"),
     "C20-4": ("S3 list_files accumulates results across retries of a paged listing",
               "a transient error on a later page of a multi-page listing"),
+    # round 3
+    "C01-5": ("LocalLockProvider.release unlinks the lock file (flock is per inode: a waiter holding the old inode and a newcomer creating a new one both get the lock)",
+              "three separate handles: one waits with the lock file open while the holder releases, a third creates the file anew"),
+    "C01-6": ("last_updated_ms clamped with max() instead of bumped: the OCC version stamp is no longer unique",
+              "coarse / frozen clock and a metadata-only commit between another committer's base read and its validation"),
+    "C02-5": ("operations split once before the OCC retry loop + delete set consumed while scanning manifests",
+              "a delete+append transaction loses one commit race: the retry publishes the append without the delete"),
+    "C02-6": ("per-handle cache of the current file listing keyed by a snapshot id that is updated before the listing is read",
+              "two reader threads sharing one warm handle (or a transient error while the first read notices the new snapshot)"),
+    "C03-5": ("metadata scan uses search() on the whole path without '^': adopts the temp file of an interrupted metadata write",
+              "process dies during table creation while the first metadata file's temp file exists"),
+    "C03-6": ("a transaction that appends and expires commits in two pointer flips",
+              "process dies (or a reader looks) between the two flips"),
+    "C04-5": ("marker clean-up helper narrows 'except Exception' to 'except OSError'",
+              "object storage: a marker delete fails with ClientError after the commit point -> rollback deletes committed files"),
+    "C04-6": ("FileLock.release: try/finally around unlock + close became sequential calls",
+              "the unlock call fails once: descriptor leaked, every later commit times out"),
+    "C05-5": ("collector reads only manifests that ADD files; a delete-rewritten manifest (added=0, existing>0) is not read",
+              "2-file append, delete one file, expire the old snapshot, collect"),
+    "C05-6": ("manifest / manifest-list in-flight marker written AFTER the file instead of before",
+              "a collection (grace 0) lands between the write and the marker of a live transaction"),
+    "C06-5": ("collector loads the in-flight markers a second time just before deleting and uses only the fresh set",
+              "a transaction with an old data file commits and clears its markers between the collector's metadata read and the second load"),
+    "C06-6": ("a fresh marker whose target does not exist yet is swept as a rollback leftover",
+              "collection A between marker write and data-file write, transaction idles past the grace period, collection B inside commit()"),
+    "C07-5": ("LocalStorageBackend.list_files: os.stat guard replaced by os.path.isdir (swallows every OSError)",
+              "non-ENOENT stat failure on metadata/inflight during a collection"),
+    "C07-6": ("marker file named after the flattened relative path; the collector's name-based fallback no longer matches",
+              "a marker whose payload cannot be read / parsed during a collection"),
+    "C08-5": ("ownership fence moved ahead of the metadata-file write",
+              "committer paused at its metadata PUT past its lease, lock taken over, rival has not flipped yet"),
+    "C08-6": ("conditional pointer PUT retried; a 412 on the retry is treated as 'my first attempt landed'",
+              "transient error on the first pointer PUT (nothing written) while a rival commits"),
+    "C09-5": ("get_snapshot_by_timestamp uses max(key=timestamp): ties resolve to the earliest commit",
+              "two retained snapshots with the same millisecond timestamp"),
+    "C09-6": ("Transaction.begin() no longer resets _written_files / markers",
+              "one Transaction object reused: first commit lands but is reported ambiguous / interrupted, second fails cleanly -> rollback deletes the first's files"),
+    "C10-5": ("reader 'repairs' an unusable pointer with an unlocked, unconditional write of what its scan found",
+              "pointer lost + a commit landing between the reader's listing and its repair"),
+    "C10-6": ("recovery capped at the version number a well-formed but dangling pointer carries",
+              "pointer naming a missing file with a version below the latest (legacy numeric '1', stale name)"),
+    "C11-5": ("unknown-key check skipped when the record has as many keys as the schema has fields",
+              "schema with an optional field, record with a misspelt key in its place"),
+    "C11-6": ("'no bound for the filtered column' read as 'column all NULL' -> file pruned",
+              "accepted batch holding a NaN (bounds withheld), later filtered scan on that column"),
+    "C12-5": ("in/not_in value set de-duplicated with dict.fromkeys: 0.0 and -0.0 collapse",
+              "float column holding a signed zero, IN list naming a zero"),
+    "C12-6": ("bounds computed per 1000-record write batch and merged; a NaN batch's veto applies to that batch only",
+              "one append of more than 1000 records with a NaN in one batch"),
+    "C13-5": ("per-batch bound accumulation (same refactor as C12-6, by another author)",
+              "one append > 1000 records, NaN batch whose finite values lie outside the other batches' range"),
+    "C13-6": ("literal 'aligned' to the bound's type: datetime literal truncated to a date",
+              "date column, datetime literal not at midnight, operators < and !="),
+    "C14-5": ("lenient metadata parsing defaults current_snapshot_id to -1",
+              "a flipped bit in the key name 'current_snapshot_id' of the current metadata file: table reported as empty"),
+    "C14-6": ("manifest-list reader keeps the entries decoded before a mid-file decode error",
+              "damage inside the record block of a manifest list with several entries"),
+    "C15-5": ("file delete stops scanning manifests once every named path was found once",
+              "the same data-file path registered by two commits, then delete_files([path])"),
+    "C15-6": ("retention no longer pins the current snapshot",
+              "retention count set and the committing writer's clock behind earlier snapshots' timestamps"),
+    "C16-5": ("directory-fsync errors other than 'unsupported' are re-raised - after the rename already happened",
+              "EIO on the directory fsync right after the pointer rename: treated as a clean failure, the named files are deleted"),
+    "C16-6": ("directory fsyncs coalesced: a caller arriving while one is in flight waits for it and returns",
+              "writer B renames its manifest list while writer A's directory fsync (issued before the rename) is finishing; B flips first"),
+    "C17-5": ("path resolution memoised per backend object: the boundary check runs only the first time",
+              "same handle, same path string, a component swapped to an outside symlink between two uses"),
+    "C17-6": ("create_lock checks the lock's directory only and joins the file name lexically",
+              ".locks/metadata.lock itself a (dangling) symlink leaving the root"),
+    "C18-5": ("pointer self-repair after recovery by scanning (same idea as C10-5, by another author)",
+              "pointer lost, local backend, opener's scan precedes a concurrent appender's commit"),
+    "C18-6": ("schema-less appends resolve the schema from the handle's constructor argument instead of the persisted one",
+              "two creators with different schemas; the loser appends without a schema argument"),
+    "C19-5": ("FileLock keeps its descriptor across acquire / release",
+              "an instance used once, then fork: children share one open file description, flock succeeds for all"),
+    "C19-6": ("S3 lock age computed with timedelta.seconds instead of total_seconds()",
+              "store clock ahead of the contender's: negative age wraps to ~86398 s -> immediate takeover of a live lock"),
+    "C20-5": ("retry loop renumbered 1-based: one attempt fewer than the budget",
+              "exactly max_retries consecutive transient errors followed by a success"),
+    "C20-6": ("AccessDenied mapped to builtin PermissionError, which the permanent-error test does not recognise",
+              "AccessDenied / 403 on a read-side request: retried (6 requests) or swallowed"),
 }
 
 
 def matrix():
     res = {}
-    for f in ("/tmp/seedmatrix.out", "/tmp/seedmatrix.extra"):
+    for f in ("/tmp/seedmatrix.out", "/tmp/seedmatrix3a.out", "/tmp/seedmatrix3b.out", "/tmp/seedmatrix.extra"):
         if not os.path.exists(f):
             continue
         for line in open(f):
